@@ -125,6 +125,14 @@ func main() {
 			func() ([]byte, error) { return tglib.GetNGSetupRequest(gid, p, bits, string(name)) })
 	}
 	nas := func(n int) []byte { return ev.Bytes(rg, n) }
+	// the builder puts the PLMN announced at the last NG Setup into the message: the judge compares every PLMN identity in it
+	withPlmn := func(m ev.M) ev.M {
+		o := ev.M{"plmn": ev.Ints(curPlmn)}
+		for k, v := range m {
+			o[k] = v
+		}
+		return o
+	}
 
 	for rep := 0; rep < nrep; rep++ {
 		setup()
@@ -180,16 +188,16 @@ func main() {
 				li = append(li, int(x))
 			}
 			a6["psis"] = li
-			r.emit("GetUEContextReleaseComplete", a6, func() ([]byte, error) { return tglib.GetUEContextReleaseComplete(amf6, ran6, lst) })
+			r.emit("GetUEContextReleaseComplete", withPlmn(a6), func() ([]byte, error) { return tglib.GetUEContextReleaseComplete(amf6, ran6, lst) })
 			a7 := A(amf6, ran6)
 			a7["psis"] = li
-			r.emit("GetUEContextReleaseRequest", a7, func() ([]byte, error) { return tglib.GetUEContextReleaseRequest(amf6, ran6, lst) })
-			r.emit("GetPathSwitchRequest", A(amf6, ran6), func() ([]byte, error) { return tglib.GetPathSwitchRequest(amf6, ran6) })
+			r.emit("GetUEContextReleaseRequest", withPlmn(a7), func() ([]byte, error) { return tglib.GetUEContextReleaseRequest(amf6, ran6, lst) })
+			r.emit("GetPathSwitchRequest", withPlmn(A(amf6, ran6)), func() ([]byte, error) { return tglib.GetPathSwitchRequest(amf6, ran6) })
 			r.emit("GetHandoverRequestAcknowledge", A(amf6, ran6), func() ([]byte, error) { return tglib.GetHandoverRequestAcknowledge(amf6, ran6) })
-			r.emit("GetHandoverNotify", A(amf6, ran6), func() ([]byte, error) { return tglib.GetHandoverNotify(amf6, ran6) })
+			r.emit("GetHandoverNotify", withPlmn(A(amf6, ran6)), func() ([]byte, error) { return tglib.GetHandoverNotify(amf6, ran6) })
 			gid, cid := ev.Bytes(rg, 3), ev.Bytes(rg, 5)
 			cid[4] &= 0xf0
-			r.emit("GetHandoverRequired", A(amf6, ran6), func() ([]byte, error) { return tglib.GetHandoverRequired(amf6, ran6, gid, cid) })
+			r.emit("GetHandoverRequired", withPlmn(A(amf6, ran6)), func() ([]byte, error) { return tglib.GetHandoverRequired(amf6, ran6, gid, cid) })
 			ip3 := [4]byte{10, byte(rg.Intn(256)), byte(rg.Intn(256)), 1}
 			a8 := A(amf6, ran6)
 			a8["ip"] = ev.Ints(ip3[:])
@@ -197,55 +205,103 @@ func main() {
 				return tglib.GetPDUSessionResourceSetupResponseForPaging(amf6, ran6, ip4(ip3))
 			})
 		}
-		// ---- every other builder of the library ----
-		amf, ran := pick(amfIds[:9]), pick(ranIds[:7])
-		ids := A(amf, ran)
-		none := ev.M{}
-		r.emit("BuildNGReset", none, enc(func() ngapType.NGAPPDU { return tp.BuildNGReset(nil) }))
-		r.emit("BuildNGResetAcknowledge", none, enc(tp.BuildNGResetAcknowledge))
-		r.emit("BuildErrorIndication", none, enc(tp.BuildErrorIndication))
-		r.emit("BuildUEContextModificationResponse", ids, enc(func() ngapType.NGAPPDU { return tp.BuildUEContextModificationResponse(amf, ran) }))
-		r.emit("BuildInitialContextSetupFailure", ids, enc(func() ngapType.NGAPPDU { return tp.BuildInitialContextSetupFailure(amf, ran) }))
-		r.emit("BuildHandoverFailure", ev.M{"amf": te.Num(amf)}, enc(func() ngapType.NGAPPDU { return tp.BuildHandoverFailure(amf) }))
-		r.emit("BuildPDUSessionResourceReleaseResponse", none, enc(tp.BuildPDUSessionResourceReleaseResponse))
-		r.emit("BuildAMFConfigurationUpdateFailure", none, enc(tp.BuildAMFConfigurationUpdateFailure))
-		r.emit("BuildUERadioCapabilityCheckRequest", ids, enc(func() ngapType.NGAPPDU { return tp.BuildUERadioCapabilityCheckRequest(amf, ran) }))
-		r.emit("BuildUERadioCapabilityCheckResponse", none, enc(tp.BuildUERadioCapabilityCheckResponse))
-		r.emit("BuildHandoverCancel", none, enc(tp.BuildHandoverCancel))
-		r.emit("BuildLocationReportingFailureIndication", none, enc(tp.BuildLocationReportingFailureIndication))
-		ipx := [4]byte{192, 168, byte(rg.Intn(256)), byte(rg.Intn(256))}
-		idsIP := A(amf, ran)
-		idsIP["ip"] = ev.Ints(ipx[:])
-		r.emit("BuildPDUSessionResourceSetupResponse", idsIP, enc(func() ngapType.NGAPPDU { return tp.BuildPDUSessionResourceSetupResponse(amf, ran, ip4(ipx)) }))
-		r.emit("BuildPDUSessionResourceModifyResponse", ids, enc(func() ngapType.NGAPPDU { return tp.BuildPDUSessionResourceModifyResponse(amf, ran) }))
-		r.emit("BuildPDUSessionResourceNotify", none, enc(tp.BuildPDUSessionResourceNotify))
-		r.emit("BuildPDUSessionResourceModifyIndication", ids, enc(func() ngapType.NGAPPDU { return tp.BuildPDUSessionResourceModifyIndication(amf, ran) }))
-		r.emit("BuildUEContextModificationFailure", ids, enc(func() ngapType.NGAPPDU { return tp.BuildUEContextModificationFailure(amf, ran) }))
-		r.emit("BuildRRCInactiveTransitionReport", none, enc(tp.BuildRRCInactiveTransitionReport))
-		r.emit("BuildUplinkRanStatusTransfer", ids, enc(func() ngapType.NGAPPDU { return tp.BuildUplinkRanStatusTransfer(amf, ran) }))
-		nn := nas(1 + rg.Intn(60))
-		idsN := A(amf, ran)
-		idsN["nas"] = ev.Ints(nn)
-		r.emit("BuildNasNonDeliveryIndication", idsN, enc(func() ngapType.NGAPPDU { return tp.BuildNasNonDeliveryIndication(amf, ran, aper.OctetString(nn)) }))
-		r.emit("BuildRanConfigurationUpdate", none, enc(tp.BuildRanConfigurationUpdate))
-		r.emit("BuildRanConfigurationUpdateAck", none, enc(func() ngapType.NGAPPDU { return tp.BuildRanConfigurationUpdateAck(nil) }))
-		r.emit("BuildRanConfigurationUpdateFailure", none, enc(func() ngapType.NGAPPDU { return tp.BuildRanConfigurationUpdateFailure(nil, nil) }))
-		r.emit("BuildUplinkRanConfigurationTransfer", none, enc(tp.BuildUplinkRanConfigurationTransfer))
-		r.emit("BuildUplinkUEAssociatedNRPPATransport", none, enc(tp.BuildUplinkUEAssociatedNRPPATransport))
-		r.emit("BuildUplinkNonUEAssociatedNRPPATransport", none, enc(tp.BuildUplinkNonUEAssociatedNRPPATransport))
-		r.emit("BuildLocationReport", none, enc(tp.BuildLocationReport))
-		r.emit("BuildUERadioCapabilityInfoIndication", none, enc(tp.BuildUERadioCapabilityInfoIndication))
-		r.emit("BuildAMFConfigurationUpdateAcknowledge", none, enc(tp.BuildAMFConfigurationUpdateAcknowledge))
-		r.emit("BuildCellTrafficTrace", ids, enc(func() ngapType.NGAPPDU { return tp.BuildCellTrafficTrace(amf, ran) }))
-		r.emit("BuildOverloadStop", none, enc(tp.BuildOverloadStop))
-		r.emit("BuildOverloadStart", none, enc(func() ngapType.NGAPPDU { return tp.BuildOverloadStart(nil, nil, nil) }))
-		r.emit("BuildInitialContextSetupResponse", ids, enc(func() ngapType.NGAPPDU { return tp.BuildInitialContextSetupResponse(amf, ran, 5, "10.0.0.1", nil) }))
-		r.emit("BuildUEContextReleaseRequest", ids, enc(func() ngapType.NGAPPDU { return tp.BuildUEContextReleaseRequest(amf, ran, nil) }))
-		r.emit("BuildPDUSessionResourceReleaseCommand", idsN, enc(func() ngapType.NGAPPDU {
-			return tp.BuildPDUSessionResourceReleaseCommand(amf, ran, nil, nn, ngapType.PDUSessionResourceToReleaseListRelCmd{
-				List: []ngapType.PDUSessionResourceToReleaseItemRelCmd{{PDUSessionID: ngapType.PDUSessionID{Value: 5},
-					PDUSessionResourceReleaseCommandTransfer: tp.GetPDUSessionResourceReleaseCommandTransfer()}}})
-		}))
+		// ---- every other builder of the library: a random in-range pair, the largest identifiers, and two out-of-range pairs ----
+		for pi, pr := range [][2]int64{{pick(amfIds[:9]), pick(ranIds[:7])}, {1 << 32, 1<<32 - 1}, {1<<40 - 1, 65536}, {1 << 40, 1}, {1, 1 << 32}} {
+			amf, ran := pr[0], pr[1]
+			first := pi == 0
+			if rep > 0 && pi > 0 {
+				break
+			}
+			ids := A(amf, ran)
+			none := ev.M{}
+			if first {
+				r.emit("BuildNGReset", none, enc(func() ngapType.NGAPPDU { return tp.BuildNGReset(nil) }))
+			}
+			if first {
+				r.emit("BuildNGResetAcknowledge", none, enc(tp.BuildNGResetAcknowledge))
+			}
+			if first {
+				r.emit("BuildErrorIndication", none, enc(tp.BuildErrorIndication))
+			}
+			r.emit("BuildUEContextModificationResponse", withPlmn(ids), enc(func() ngapType.NGAPPDU { return tp.BuildUEContextModificationResponse(amf, ran) }))
+			r.emit("BuildInitialContextSetupFailure", ids, enc(func() ngapType.NGAPPDU { return tp.BuildInitialContextSetupFailure(amf, ran) }))
+			r.emit("BuildHandoverFailure", ev.M{"amf": te.Num(amf)}, enc(func() ngapType.NGAPPDU { return tp.BuildHandoverFailure(amf) }))
+			if first {
+				r.emit("BuildPDUSessionResourceReleaseResponse", withPlmn(none), enc(tp.BuildPDUSessionResourceReleaseResponse))
+			}
+			if first {
+				r.emit("BuildAMFConfigurationUpdateFailure", none, enc(tp.BuildAMFConfigurationUpdateFailure))
+			}
+			r.emit("BuildUERadioCapabilityCheckRequest", ids, enc(func() ngapType.NGAPPDU { return tp.BuildUERadioCapabilityCheckRequest(amf, ran) }))
+			if first {
+				r.emit("BuildUERadioCapabilityCheckResponse", none, enc(tp.BuildUERadioCapabilityCheckResponse))
+			}
+			if first {
+				r.emit("BuildHandoverCancel", withPlmn(none), enc(tp.BuildHandoverCancel))
+			}
+			if first {
+				r.emit("BuildLocationReportingFailureIndication", withPlmn(none), enc(tp.BuildLocationReportingFailureIndication))
+			}
+			ipx := [4]byte{192, 168, byte(rg.Intn(256)), byte(rg.Intn(256))}
+			idsIP := A(amf, ran)
+			idsIP["ip"] = ev.Ints(ipx[:])
+			r.emit("BuildPDUSessionResourceSetupResponse", idsIP, enc(func() ngapType.NGAPPDU { return tp.BuildPDUSessionResourceSetupResponse(amf, ran, ip4(ipx)) }))
+			r.emit("BuildPDUSessionResourceModifyResponse", withPlmn(ids), enc(func() ngapType.NGAPPDU { return tp.BuildPDUSessionResourceModifyResponse(amf, ran) }))
+			if first {
+				r.emit("BuildPDUSessionResourceNotify", withPlmn(none), enc(tp.BuildPDUSessionResourceNotify))
+			}
+			r.emit("BuildPDUSessionResourceModifyIndication", ids, enc(func() ngapType.NGAPPDU { return tp.BuildPDUSessionResourceModifyIndication(amf, ran) }))
+			r.emit("BuildUEContextModificationFailure", ids, enc(func() ngapType.NGAPPDU { return tp.BuildUEContextModificationFailure(amf, ran) }))
+			if first {
+				r.emit("BuildRRCInactiveTransitionReport", withPlmn(none), enc(tp.BuildRRCInactiveTransitionReport))
+			}
+			r.emit("BuildUplinkRanStatusTransfer", ids, enc(func() ngapType.NGAPPDU { return tp.BuildUplinkRanStatusTransfer(amf, ran) }))
+			nn := nas(1 + rg.Intn(60))
+			idsN := A(amf, ran)
+			idsN["nas"] = ev.Ints(nn)
+			r.emit("BuildNasNonDeliveryIndication", idsN, enc(func() ngapType.NGAPPDU { return tp.BuildNasNonDeliveryIndication(amf, ran, aper.OctetString(nn)) }))
+			if first {
+				r.emit("BuildRanConfigurationUpdate", none, enc(tp.BuildRanConfigurationUpdate))
+			}
+			if first {
+				r.emit("BuildRanConfigurationUpdateAck", none, enc(func() ngapType.NGAPPDU { return tp.BuildRanConfigurationUpdateAck(nil) }))
+			}
+			if first {
+				r.emit("BuildRanConfigurationUpdateFailure", none, enc(func() ngapType.NGAPPDU { return tp.BuildRanConfigurationUpdateFailure(nil, nil) }))
+			}
+			if first {
+				r.emit("BuildUplinkRanConfigurationTransfer", withPlmn(none), enc(tp.BuildUplinkRanConfigurationTransfer))
+			}
+			if first {
+				r.emit("BuildUplinkUEAssociatedNRPPATransport", none, enc(tp.BuildUplinkUEAssociatedNRPPATransport))
+			}
+			if first {
+				r.emit("BuildUplinkNonUEAssociatedNRPPATransport", none, enc(tp.BuildUplinkNonUEAssociatedNRPPATransport))
+			}
+			if first {
+				r.emit("BuildLocationReport", withPlmn(none), enc(tp.BuildLocationReport))
+			}
+			if first {
+				r.emit("BuildUERadioCapabilityInfoIndication", none, enc(tp.BuildUERadioCapabilityInfoIndication))
+			}
+			if first {
+				r.emit("BuildAMFConfigurationUpdateAcknowledge", none, enc(tp.BuildAMFConfigurationUpdateAcknowledge))
+			}
+			r.emit("BuildCellTrafficTrace", withPlmn(ids), enc(func() ngapType.NGAPPDU { return tp.BuildCellTrafficTrace(amf, ran) }))
+			if first {
+				r.emit("BuildOverloadStop", none, enc(tp.BuildOverloadStop))
+			}
+			if first {
+				r.emit("BuildOverloadStart", none, enc(func() ngapType.NGAPPDU { return tp.BuildOverloadStart(nil, nil, nil) }))
+			}
+			r.emit("BuildInitialContextSetupResponse", ids, enc(func() ngapType.NGAPPDU { return tp.BuildInitialContextSetupResponse(amf, ran, 5, "10.0.0.1", nil) }))
+			r.emit("BuildUEContextReleaseRequest", ids, enc(func() ngapType.NGAPPDU { return tp.BuildUEContextReleaseRequest(amf, ran, nil) }))
+			r.emit("BuildPDUSessionResourceReleaseCommand", idsN, enc(func() ngapType.NGAPPDU {
+				return tp.BuildPDUSessionResourceReleaseCommand(amf, ran, nil, nn, ngapType.PDUSessionResourceToReleaseListRelCmd{
+					List: []ngapType.PDUSessionResourceToReleaseItemRelCmd{{PDUSessionID: ngapType.PDUSessionID{Value: 5},
+						PDUSessionResourceReleaseCommandTransfer: tp.GetPDUSessionResourceReleaseCommandTransfer()}}})
+			}))
+		}
 	}
 	// every PDU session identity of the list (in range, boundary and out of range: 300 and 9999 besides 256 and -1) through each of
 	// the three wrappers that take one
